@@ -569,7 +569,7 @@ EFFECT_TABLES = {
     "C05": [T + "tzlocal._naive_is_dst", T + "tzlocal._isdst", T + "resolve_imaginary"],
     "C06": [T + "tzfile._find_ttinfo", T + "tzfile._resolve_ambiguous_time", T + "_datetime_to_timestamp", T + "_get_supported_offset"],
     "C07": ["parser.isoparser.isoparser._calculate_weekdate", "parser.isoparser.isoparser._parse_isodate", "parser.isoparser.isoparser.parse_isodate",
-            "parser.isoparser.isoparser.parse_isotime", "parser.isoparser.isoparser.parse_tzstr", "parser.isoparser._to_int", "parser.isoparser._takes_ascii.func"],
+            "parser.isoparser.isoparser.parse_tzstr", "parser.isoparser._to_int", "parser.isoparser._takes_ascii.func"],
     "C08": [T + "tzstr.__init__", T + "tzrange.transitions", T + "tzrange._dst_base_offset"],
     "C09": ["relativedelta.relativedelta._set_months"],
     "C10": [R + "rruleset._genitem.__init__", R + "rruleset._genitem.__next__", R + "rruleset._genitem.__lt__", R + "rruleset._genitem.__gt__", R + "rruleset._genitem.__eq__",
